@@ -60,6 +60,30 @@ def atom_family(tier):
     return out
 
 
+# outer query over a FROM-subquery that itself needs planning (another integration inside): outer targets x outer tails x inner shapes
+NEST_INNER = ["SELECT a, id FROM int1.t1 WHERE a IN (SELECT c FROM int2.t2)", "SELECT t1.a, t1.id FROM int1.t1 JOIN int2.t2 ON t1.id = t2.id",
+              "SELECT a, id FROM int1.t1 WHERE id = (SELECT max(id) FROM int2.t2)"]
+NEST_OUTER = [('s.a', ''), ('s.a', ' LIMIT 1'), ('s.a', ' ORDER BY s.id LIMIT 1'), ('count(*) AS n', ''), ('count(*) AS n', ' LIMIT 1'), ('max(s.a) AS m', ' LIMIT 1'),
+              ('sum(s.a) AS t, count(s.id) AS n', ' LIMIT 2'), ('DISTINCT s.a', ''), ('s.a, count(*) AS n', ' GROUP BY s.a'), ('s.a', ' WHERE s.a > 0 LIMIT 1'),
+              ('count(*) AS n', ' WHERE s.a > 0'), ('s.a', ' ORDER BY s.id DESC LIMIT 1 OFFSET 1')]
+
+
+# ON clauses whose comparisons sit under NOT / OR / in either operand order / next to a constant condition
+ON_SHAPES = ['x.id = y.id AND NOT y.c = 1', 'NOT (x.id = y.id AND y.c = 1)', 'x.id = y.id AND (y.c = 1 OR y.c = 2)', 'x.id = y.id AND 1 = y.c', 'y.id = x.id AND y.c != 1',
+             'x.id = y.id AND y.c BETWEEN 1 AND 2', 'x.id = y.id AND y.c IN (1, 2)', 'x.id = y.id AND y.c IS NULL', 'x.id = y.id AND x.a = y.c', 'NOT x.id = y.id',
+             'x.id = y.id AND NOT (x.a = 1 OR y.c = 1)', 'x.id = y.id AND 1 >= y.c AND x.a <= 2']
+
+
+def on_family(tier):
+    js = JOINS[:4] if tier == 'quick' else JOINS
+    return ['SELECT x.a, y.c FROM int1.t1 AS x %s int2.t2 AS y ON %s' % (j, on) for j in js for on in ON_SHAPES] + \
+           ['SELECT x.a, y.c FROM int1.t1 AS x %s int2.t2 AS y ON %s WHERE x.a > 0' % (j, on) for j in js[:2] for on in ON_SHAPES[:6]]
+
+
+def nested_family(tier):
+    return ['SELECT %s FROM (%s) AS s%s' % (tg, inner, tail) for inner in NEST_INNER for tg, tail in NEST_OUTER]
+
+
 def family(tier):
     out = []
     if tier == 'quick':
@@ -77,7 +101,7 @@ def family(tier):
         sqls.append(sql)
     # deterministic de-dup preserving order
     seen, res = set(), []
-    for s_ in sqls + EXTRA + atom_family(tier):
+    for s_ in sqls + EXTRA + atom_family(tier) + nested_family(tier) + on_family(tier):
         if s_ not in seen:
             seen.add(s_)
             res.append(s_)
@@ -87,9 +111,15 @@ def family(tier):
 def classify(sql, plan):
     """call-site class of a failing member (used as the finding key)"""
     from mindsdb_sql.planner import steps as S
-    for st in plan.steps:
-        if isinstance(st, S.FetchDataframeStep) and st.query is not None and getattr(st.query, 'limit', None) is not None and ' LIMIT ' in sql.upper():
-            return 'limit-pushed-into-fetch'
+    from mindsdb_sql.parser.ast import Join
+    from mindsdb_sql import parse_sql
+    # the recorded finding is the JOIN planner copying the statement's own LIMIT / OFFSET into the fetch of its first table:
+    # only a statement whose own FROM is a join of tables and that carries the LIMIT itself belongs to that call site
+    q = parse_sql(sql, 'mindsdb')
+    if isinstance(getattr(q, 'from_table', None), Join) and getattr(q, 'limit', None) is not None:
+        for st in plan.steps:
+            if isinstance(st, S.FetchDataframeStep) and st.query is not None and getattr(st.query, 'limit', None) is not None:
+                return 'limit-pushed-into-fetch'
     return 'other'
 
 
